@@ -32,6 +32,9 @@ CHECKS={
  'C15':dict(technique='round-trip property-based testing: describe() text of generated validators is fed back through the compiler; second-generation validators are compared with the first on generated values and hash256',
    text='Exploration over the C01 program generator (all hard families counted in the evidence); the oracle is the round trip itself plus a declared-once check of the printed aliases.',
    note='Trusted: beff as the judge of the described text (no tsc offline).', ref='DESIGN.md section 2 C15'),
+ 'C09':dict(technique='differential property-based testing: a generated single-file program against random partitions of its declarations into 2-5 files with randomly chosen import/export styles, plus decoys and negative variants',
+   text='Exploration over layouts (15 style kinds counted in the evidence); the single-file program is the oracle for validate results (default/strict) and hash256; a removed file must yield a diagnostic.',
+   note='Trusted: the layout generator only moves declarations and rewrites identifiers; in-memory module resolver.', ref='DESIGN.md section 2 C09'),
  'C11':dict(technique='property-based testing: strict-mode verdicts of generated validators vs reference strict membership, with undeclared keys injected at random object positions',
    text='Exploration weighted to intersections/unions/nesting/records; oracle = reference "no undeclared key at any object position" + strict implies default.',
    note='Trusted: reference declared-key computation (intersection = union of members\' keys, union = matching branch, index signature admits all keys).', ref='DESIGN.md section 2 C11'),
